@@ -356,7 +356,7 @@ func (p *pkg) sqlEvents(fd *ast.FuncDecl) []string {
 			switch text {
 			case "sqlResError(res)":
 				evs = append(evs, "EResErr")
-			case "tx.Commit()":
+			case "tx.Commit()", "sqlite3CommitTx(tx)":
 				evs = append(evs, "ECommit")
 			case "sqlIterRows(rows, f)":
 				evs = append(evs, "EIterRows")
@@ -392,6 +392,25 @@ func genKvSql(repo string) (string, error) {
 		fmt.Fprintf(&b, "Definition gen_%s_methods : methods :=\n  %s.\n\n", be.name, coqList(ms))
 		fmt.Fprintf(&b, "Definition gen_%s_ops : list (string * string) :=\n  %s.\n\n", be.name, coqList(p.opsBinding(be.typ)))
 	}
+	// how mutate ends its transaction, and the helper it uses for that
+	for _, be := range []struct{ typ, name string }{{"sqlite3KV", "sqlite"}, {"psqlKV", "psql"}} {
+		how := ""
+		if fd := p.funcDecl(be.typ, "mutate"); fd != nil && fd.Body != nil && len(fd.Body.List) > 0 {
+			if r, ok := fd.Body.List[len(fd.Body.List)-1].(*ast.ReturnStmt); ok && len(r.Results) == 1 {
+				how = p.src(r.Results[0])
+			}
+		}
+		fmt.Fprintf(&b, "Definition gen_%s_commit : string := %s.\n", be.name, coqStr(how))
+	}
+	helper := ""
+	if fd := p.funcDecl("", "sqlite3CommitTx"); fd != nil && fd.Body != nil {
+		var parts []string
+		for _, st := range fd.Body.List {
+			parts = append(parts, p.src(st))
+		}
+		helper = strings.Join(parts, " ;; ")
+	}
+	fmt.Fprintf(&b, "Definition gen_sqlite_commit_helper : string := %s.\n\n", coqStr(helper))
 	consts, _ := p.consts()
 	fmt.Fprintf(&b, "Definition gen_max_key_len : N := %s.\n", coqN(consts["MaxKeyLen"]))
 	// the scheme of the sqlite table: which columns are unique / not null
